@@ -275,25 +275,38 @@ func (x *Exec) run() {
 				"ghost variable "+strings.TrimPrefix(gp, "ghost:")+" is unchanged (it is not mentioned in the postconditions)")
 		}
 	}
-	// parameters in postconditions denote their entry values
-	for _, pp := range x.paramPaths {
-		for k, v := range pre.vars {
-			if k == pp || strings.HasPrefix(k, pp+".") {
-				fin.vars[k] = v
-			}
-		}
-	}
-	// postconditions
+	// postconditions: checked on every return path separately (smaller contexts than on the merged state)
 	var rp []string
 	var rt []types.Type
 	for _, r := range x.results {
 		rp = append(rp, r.path)
 		rt = append(rt, r.typ)
 	}
-	x.curResults = &resultBinding{paths: rp, types: rt, st: fin}
-	for i, cl := range ct.Ensures {
-		t := x.evalClause(cl, sc, fin, env)
-		c.oblige("post", clauseLabel(cl, i), mergeProps(x.props, cl.Props), x.pos(fd.Pos()), fin.pc, t, cl.Text)
+	var live []*State
+	for _, e := range ends {
+		if !dead(e) {
+			live = append(live, e)
+		}
+	}
+	for k, e := range live {
+		e = e.clone()
+		// parameters in postconditions denote their entry values
+		for _, pp := range x.paramPaths {
+			for kk, v := range pre.vars {
+				if kk == pp || strings.HasPrefix(kk, pp+".") {
+					e.vars[kk] = v
+				}
+			}
+		}
+		x.curResults = &resultBinding{paths: rp, types: rt, st: e}
+		for i, cl := range ct.Ensures {
+			t := x.evalClause(cl, sc, e, env)
+			lbl := clauseLabel(cl, i)
+			if len(live) > 1 {
+				lbl += fmt.Sprintf(".r%d", k)
+			}
+			c.oblige("post", lbl, mergeProps(x.props, cl.Props), x.pos(fd.Pos()), e.pc, t, cl.Text)
+		}
 	}
 	cov := c.oblige("cover", "exit", x.props, x.pos(fd.Pos()), fin.pc, "true", "function exit reachable")
 	cov.Expect = "sat"
